@@ -165,6 +165,12 @@ Definition GP_p (ps : cparams) : Prop := forall F st cd base cenv env,
   pout (c_ij cf) (mode st) go_print_text denv callee env ps base = Some cenv -> cd <> [] -> (forall k, sc_lookup cd k = base k) -> envok base ->
   exists cd' st', call_params (walk cf F) (pnodes ps) cd st = (Ok cd', st') /\ pres st st'
                   /\ cd' <> [] /\ (forall k, sc_lookup cd' k = cenv k) /\ envok cenv.
+(* the plural: walkPlural walks the selected body as a message of its own *)
+Definition GP_q (q : cplur) : Prop := forall F st text env i,
+  (cfuel + S (qdepth q) < F)%nat -> wok st -> ctx st <> [] -> agrees st env -> envok env ->
+  qout (c_ij cf) (mode st) go_print_text denv callee env i q = Some text ->
+  exists st' ws, plural_pick (walk cf F) 0 i (qdnodes q) (qcnodes q) st = (Ok tt, st') /\ wrote st st' ws /\ concat_b ws = text
+                 /\ mode st' = mode st /\ ctx st' <> [] /\ tl (ctx st') = tl (ctx st) /\ agrees st' env.
 
 Lemma envok_set env k v : envok env -> core_value v = true -> envok (env_set env k v).
 Proof. intros H Hv q x. unfold env_set. destruct (bstr_eqb q k); [intro E; inversion E; subst; exact Hv|apply H]. Qed.
@@ -204,6 +210,8 @@ Proof.
   - rewrite sout_call. destruct (cdata_env _ _ _ _); [|discriminate]. destruct (pout _ _ _ _ _ _ _ _); [|discriminate].
     destruct (callee _ _); [|discriminate]. intro E; inversion E; subst; exact Hc.
   - rewrite sout_msg. destruct (msg_ok body); [|discriminate]. destruct (bout _ _ _ _ _ _ _); [|discriminate]. intro E; inversion E; subst; exact Hc.
+  - rewrite sout_msgpl. destruct (ceval (c_ij cf) env v) as [[| | |i| | | |]|]; try discriminate.
+    destruct (qout _ _ _ _ _ _ _ _); [|discriminate]. intro E; inversion E; subst; exact Hc.
 Qed.
 
 (* ---- calls ---- *)
@@ -211,6 +219,14 @@ Lemma snode_call name d ps : snode (SCall name d ps) = NCall 0 name (cdata_all d
 Lemma sdepth_call name d ps : sdepth (SCall name d ps) = S (S (Nat.max (ddepth d) (pdepth ps))). Proof. reflexivity. Qed.
 Lemma snode_msg body : snode (SMsg body) = NMsg 0 0 [] [] (mnodes body). Proof. reflexivity. Qed.
 Lemma sdepth_msg body : sdepth (SMsg body) = S (bdepth body). Proof. reflexivity. Qed.
+Lemma snode_msgpl pn v q : snode (SMsgPl pn v q) = NMsg 0 0 [] [] [NMsgPlural 0 pn (cnode v) (qcnodes q) (qdnodes q)]. Proof. reflexivity. Qed.
+Lemma sdepth_msgpl pn v q : sdepth (SMsgPl pn v q) = S (S (S (S (Nat.max (cdepth v) (qdepth q))))). Proof. reflexivity. Qed.
+Lemma qcnodes_dflt b : qcnodes (QDflt b) = []. Proof. reflexivity. Qed.
+Lemma qcnodes_case z b r : qcnodes (QCase z b r) = NMsgPluralCase 0 z (mnodes b) :: qcnodes r. Proof. reflexivity. Qed.
+Lemma qdnodes_dflt b : qdnodes (QDflt b) = mnodes b. Proof. reflexivity. Qed.
+Lemma qdnodes_case z b r : qdnodes (QCase z b r) = qdnodes r. Proof. reflexivity. Qed.
+Lemma qdepth_dflt b : qdepth (QDflt b) = bdepth b. Proof. reflexivity. Qed.
+Lemma qdepth_case z b r : qdepth (QCase z b r) = Nat.max (bdepth b) (qdepth r). Proof. reflexivity. Qed.
 Lemma pnodes_val k e r : pnodes (PVal k e r) = NParamValue 0 k (cnode e) :: pnodes r. Proof. reflexivity. Qed.
 Lemma pnodes_cont k body r : pnodes (PCont k body r) = NParamContent 0 k (NList 0 (bnodes body)) :: pnodes r. Proof. reflexivity. Qed.
 Lemma pdepth_val k e r : pdepth (PVal k e r) = Nat.max (cdepth e) (pdepth r). Proof. reflexivity. Qed.
@@ -509,7 +525,38 @@ Proof.
   destruct s; try discriminate Hs; apply Hstep; reflexivity.
 Qed.
 
-Theorem interp_all : (forall s, GP_s s) /\ (forall b, GP_b b) /\ (forall e, GP_e e) /\ (forall k, GP_k k) /\ (forall ps, GP_p ps).
+(* a message without plural, from its block *)
+Lemma go_msg_stmt body : GP_b body -> GP_s (SMsg body).
+Proof.
+  intros IHb f st text env env' Hf Hg Hn Ha Hc E. rewrite sout_msg in E.
+    destruct (msg_ok body) eqn:Hm; [|discriminate].
+    destruct (bout (c_ij cf) (mode st) go_print_text denv callee env body) as [t|] eqn:Et; [|discriminate]. inversion E; subst. clear E.
+    rewrite sdepth_msg in Hf. destruct f as [|F]; [lia|]. unfold sres. rewrite walk_unfold, snode_msg. cbn [walk_node].
+    match goal with |- context [set_cur st ?p] => set (st1 := set_cur st p) end.
+    assert (P1 : pres st st1) by apply pres_set_cur. pose proof P1 as (C1 & M1 & _).
+    destruct (IHb F st1 text env' ltac:(lia) (wsame_wok _ _ (pres_wsame _ _ P1) Hg) ltac:(congruence) (agrees_pres _ _ _ P1 Ha) Hc)
+      as (st2 & ws & E2 & W2 & T2 & M2 & X2 & A2). { rewrite M1. exact Et. }
+    unfold mbind at 1. rewrite (go_msg_body F body Hm), E2. cbn [ret].
+    exists st2, ws, VUndef. split; [reflexivity|]. split; [exact (wrote_l _ _ _ _ (pres_wsame _ _ P1) W2)|]. split; [exact T2|].
+    split; [congruence|]. split; [exact (dinv_nonempty _ (proj2 (A2 Hm)))|]. split; [congruence|exact (A2 Hm)].
+Qed.
+
+Lemma go_mbind_ok {A B} (m : M A) (f : A -> M B) st x st' r : m st = (Ok x, st') -> f x st' = r -> mbind m f st = r.
+Proof. intros H <-. unfold mbind. rewrite H. reflexivity. Qed.
+
+(* walkPlural's choice walks the body as a message *)
+Lemma go_plural_body b F st text env : GP_b b -> (cfuel + S (bdepth b) < F)%nat -> wok st -> ctx st <> [] -> agrees st env -> envok env ->
+  (if msg_ok b then bout (c_ij cf) (mode st) go_print_text denv callee env b else None) = Some text ->
+  exists st' ws, (_ <-- walk cf F (NMsg 0 0 [] [] (mnodes b)) ;;; ret tt) st = (Ok tt, st') /\ wrote st st' ws /\ concat_b ws = text
+                 /\ mode st' = mode st /\ ctx st' <> [] /\ tl (ctx st') = tl (ctx st) /\ agrees st' env.
+Proof.
+  intros IHb Hf Hg Hn Ha Hc E.
+  destruct (go_msg_stmt b IHb F st text env env ltac:(rewrite sdepth_msg; lia) Hg Hn Ha Hc) as (st' & ws & rv & E1 & W & T & Mo & N & Tl & A).
+  { rewrite sout_msg. destruct (msg_ok b); [|discriminate]. rewrite E. reflexivity. }
+  rewrite snode_msg in E1. exists st', ws. split; [exact (go_mbind_ok _ _ _ _ _ _ E1 eq_refl)|]. split; [exact W|]. split; [exact T|]. split; [exact Mo|]. split; [exact N|]. split; [exact Tl|exact A].
+Qed.
+
+Theorem interp_all : (forall s, GP_s s) /\ (forall b, GP_b b) /\ (forall e, GP_e e) /\ (forall k, GP_k k) /\ (forall ps, GP_p ps) /\ (forall q, GP_q q).
 Proof.
   apply cstmt_mutind.
   - (* raw text *) intros t f st text env env' Hf Hg Hn Ha Hc E. rewrite sout_raw in E. inversion E; subst.
@@ -672,17 +719,21 @@ Proof.
     destruct (Hrun F st4 cd' ltac:(lia) (wsame_wok _ _ (pres_wsame _ _ P4) Hg) Ncd' Lcd' Hcenv) as (st5 & ws & rv & E5 & W5 & C5 & M5 & X5).
     exists st5, ws, rv. split; [exact E5|]. split; [exact (wrote_l _ _ _ _ (pres_wsame _ _ P4) W5)|]. split; [exact C5|].
     pose proof P4 as (C4 & M4 & _). split; congruence.
-  - (* msg *) intros body IHb f st text env env' Hf Hg Hn Ha Hc E. rewrite sout_msg in E.
-    destruct (msg_ok body) eqn:Hm; [|discriminate].
-    destruct (bout (c_ij cf) (mode st) go_print_text denv callee env body) as [t|] eqn:Et; [|discriminate]. inversion E; subst. clear E.
-    rewrite sdepth_msg in Hf. destruct f as [|F]; [lia|]. unfold sres. rewrite walk_unfold, snode_msg. cbn [walk_node].
+  - (* msg *) exact go_msg_stmt.
+  - (* msg with a plural *) intros pn v q IHq f st text env env' Hf Hg Hn Ha Hc E. rewrite sout_msgpl in E.
+    destruct (ceval (c_ij cf) env v) as [sv|] eqn:Ev; [|discriminate]. destruct sv as [| | |i| | | |]; try discriminate E.
+    destruct (qout (c_ij cf) (mode st) go_print_text denv callee env i q) as [t|] eqn:Et; [|discriminate]. inversion E; subst. clear E.
+    rewrite sdepth_msgpl in Hf. destruct f as [|F]; [lia|]. unfold sres. rewrite walk_unfold, snode_msgpl. cbn [walk_node].
     match goal with |- context [set_cur st ?p] => set (st1 := set_cur st p) end.
-    assert (P1 : pres st st1) by apply pres_set_cur. pose proof P1 as (C1 & M1 & _).
-    destruct (IHb F st1 text env' ltac:(lia) (wsame_wok _ _ (pres_wsame _ _ P1) Hg) ltac:(congruence) (agrees_pres _ _ _ P1 Ha) Hc)
-      as (st2 & ws & E2 & W2 & T2 & M2 & X2 & A2). { rewrite M1. exact Et. }
-    unfold mbind at 1. rewrite (go_msg_body F body Hm), E2. cbn [ret].
-    exists st2, ws, VUndef. split; [reflexivity|]. split; [exact (wrote_l _ _ _ _ (pres_wsame _ _ P1) W2)|]. split; [exact T2|].
-    split; [congruence|]. split; [exact (dinv_nonempty _ (proj2 (A2 Hm)))|]. split; [congruence|exact (A2 Hm)].
+    assert (P1 : pres st st1) by apply pres_set_cur.
+    destruct (go_eval F v st1 (VInt i) env' (agrees_pres _ _ _ P1 Ha) Hc ltac:(lia) Ev) as (st2 & E2 & P2).
+    pose proof (pres_trans _ _ _ P1 P2) as P12. pose proof P12 as (C12 & M12 & _).
+    destruct (IHq F st2 text env' i ltac:(lia) (wsame_wok _ _ (pres_wsame _ _ P12) Hg) ltac:(congruence) (agrees_pres _ _ _ P12 Ha) Hc)
+      as (st3 & ws & E3 & W3 & T3 & M3 & N3 & Tl3 & A3). { rewrite M12. exact Et. }
+    exists st3, ws, VUndef.
+    split. { eapply go_mbind_ok; [|reflexivity]. cbn [msg_body]. eapply go_mbind_ok; [exact E2|]. cbn iota. eapply go_mbind_ok; [exact E3|reflexivity]. }
+    split; [exact (wrote_l _ _ _ _ (pres_wsame _ _ P12) W3)|]. split; [exact T3|].
+    split; [congruence|]. split; [exact N3|]. split; [congruence|exact A3].
   - (* BNil *) intros f st text env Hf Hg Hn Ha Hc E. rewrite bout_nil in E. inversion E; subst. exists st, [].
     split; [reflexivity|]. split; [apply wsame_wrote, wsame_refl|auto].
   - (* BCons *) intros s IHs r IHr f st text env Hf Hg Hn Ha Hc E. rewrite bout_cons in E. rewrite bdepth_cons in Hf.
@@ -758,5 +809,13 @@ Proof.
     + intro q. rewrite sc_lookup_set by exact Hn. unfold env_set. rewrite Hl. reflexivity.
     + apply envok_set; [exact Hb|reflexivity].
     + exists cd', st3. split; [exact E3|]. split; [eapply pres_trans; eauto|exact R].
+  - (* QDflt *) intros b IHb F st text env i Hf Hg Hn Ha Hc E. rewrite qout_dflt in E. rewrite qdepth_dflt in Hf.
+    rewrite qcnodes_dflt, qdnodes_dflt. cbn [plural_pick].
+    exact (go_plural_body b F st text env IHb Hf Hg Hn Ha Hc E).
+  - (* QCase *) intros z b IHb r IHr F st text env i Hf Hg Hn Ha Hc E. rewrite qout_case in E. rewrite qdepth_case in Hf.
+    rewrite qcnodes_case, qdnodes_case. cbn [plural_pick].
+    destruct (i =? z)%Z.
+    + exact (go_plural_body b F st text env IHb ltac:(lia) Hg Hn Ha Hc E).
+    + exact (IHr F st text env i ltac:(lia) Hg Hn Ha Hc E).
 Qed.
 End GoStmts.
